@@ -125,3 +125,98 @@ def hammer(jobs, nthreads=4, rounds=300):
     finally:
         sys.setswitchinterval(old)
     return bad[0] if bad else None
+
+
+# ---------------------------------------------------------------------------------- first use of a fresh copy of the package, by several threads at once
+_fresh = [0]
+
+
+def fresh_package():
+    """a new copy of the working-tree package under its own name: module-level state (lazily built tables, memo dicts) starts empty"""
+    from vlib import dual
+    _fresh[0] += 1
+    alias = "pyModeS_fresh%d" % _fresh[0]
+    pkg = dual.load_copy(alias, None)
+    dual._cache.pop(alias, None)
+    return pkg, alias
+
+
+def drop_package(alias):
+    for k in list(sys.modules):
+        if k == alias or k.startswith(alias + "."):
+            del sys.modules[k]
+
+
+def resolve(pkg, path):
+    obj = pkg
+    for part in path.split("."):
+        obj = getattr(obj, part)
+    return obj
+
+
+def first_use(jobs, nthreads=4):
+    """jobs: (path, args, expected) with expected = ('ok', value) | ('raise', TypeName) | callable(result) -> problem or None.
+    A fresh copy of the package is loaded and `nthreads` threads, released together, make the process's *first* calls of these functions
+    with a 1 us switch interval.  Whatever a function sets up on first use (tables, caches) must not be visible half-built to the others."""
+    pkg, alias = fresh_package()
+    fns = [(path, resolve(pkg, path), args, exp) for path, args, exp in jobs]
+    old = sys.getswitchinterval()
+    bad = []
+    barrier = threading.Barrier(nthreads)
+
+    def work(k):
+        n = len(fns)
+        barrier.wait()
+        for j in range(n):
+            path, fn, args, exp = fns[(j + (k // 2) * (n // 2)) % n]   # threads 0,1 start at the first job together, threads 2,3 half-way
+            try:
+                got = ("ok", fn(*args))
+            except Exception as e:  # noqa
+                got = ("raise", type(e).__name__)
+            if callable(exp):
+                p = exp(got)
+            else:
+                p = None if got == tuple(exp) else "expected %r" % (tuple(exp),)
+            if p:
+                bad.append("%s%r -> %r when %d threads make the first calls of a freshly imported package together: %s" % (path, tuple(args), got, nthreads, p))
+                return
+
+    ts = [threading.Thread(target=work, args=(k,)) for k in range(nthreads)]
+    sys.setswitchinterval(1e-6)
+    try:
+        for t in ts:
+            t.start()
+        for t in ts:
+            t.join()
+    finally:
+        sys.setswitchinterval(old)
+        drop_package(alias)
+    return bad[0] if bad else None
+
+
+def first_use_leg(make_jobs, quick=64, thorough=3000, doc=""):
+    """make_jobs(rng) -> job list (expected values from the reference encoders/tables, never from the library)."""
+    import random
+
+    from vlib.core import Leg
+
+    def enum(ctx):
+        for i in range(ctx.n):
+            if ctx.mine(i):
+                yield {"trial": i, "seed": ctx.rng("first-use", i).getrandbits(32)}
+
+    def chk(case, note):
+        jobs = make_jobs(random.Random(case["seed"]))
+        p = first_use(jobs)
+        if p:
+            return p
+        note.evals = len(jobs) * 4
+        note.cls("first-use-4-threads")
+        note.nt(True, key=["first-use", case["trial"], case["seed"]])
+        return None
+
+    leg = Leg("first_use", chk, enum=enum, quick=quick, thorough=thorough, exhaustive=False,
+              doc=doc or "a fresh copy of the package per trial, its first calls made by four threads at once (1 us switch interval)")
+    leg.reeval = False
+    leg.opt = False   # not repeated in the python -O child run
+    return leg
